@@ -1,0 +1,88 @@
+//go:build verif
+
+// Contracts for govc (contract-based deductive verification); comments only.
+package bindrequest_info
+
+// C12: "The binder retries a failing request at most BackoffLimit times with the attempt count
+// persisted, after which the request is observably failed to the scheduler."
+// A request is terminally failed iff its phase is Failed and either no backoff limit is set or the
+// persisted attempt counter has reached the limit.
+//@ define brFailed(br *schedulingv1alpha2.BindRequest) bool = br.Status.Phase == "Failed" && (br.Spec.BackoffLimit == nil || br.Status.FailedAttempts >= *br.Spec.BackoffLimit)
+
+//@ func (*BindRequestInfo).IsFailed
+//@   props C12
+//@   requires bri != nil && bri.BindRequest != nil
+//@   pure
+//@   ensures result == brFailed(bri.BindRequest)
+//@ end
+
+// Map key of a pod / request: a DETERMINISTIC function of (namespace, name). common_info.NewObjectKey
+// builds it with fmt.Sprintf; the engine does not identify the results of two Sprintf calls with equal
+// string arguments (the arguments are boxed into fresh interface values), and the only fact needed here
+// is that equal arguments give equal keys.
+//@ declare objKey(ns string, name string) string
+
+//@ func NewKey
+//@   props C12
+//@   trusted
+//@   note fmt.Sprintf (inside common_info.NewObjectKey): assumed to be a deterministic function of its two string arguments
+//@   pure
+//@   ensures result == objKey(namespace, name)
+//@ end
+
+//@ func NewKeyFromPod
+//@   props C12
+//@   requires pod != nil
+//@   pure
+//@   ensures result == objKey(pod.Namespace, pod.Name)
+//@ end
+
+//@ func NewKeyFromRequest
+//@   props C12
+//@   requires request != nil
+//@   pure
+//@   ensures result == objKey(request.Namespace, request.Spec.PodName)
+//@ end
+
+// C12: "terminally failed requests are deleted and their pods become schedulable again": the
+// scheduler sees no bind request for the pod iff none is stored under the pod's key or the stored
+// one is terminally failed; otherwise it sees exactly the stored one.
+//@ func (BindRequestMap).GetBindRequestForPod
+//@   props C12
+//@   requires pod != nil
+//@   requires forall k in brm :: brm[k] != nil && brm[k].BindRequest != nil
+//@   pure
+//@   ensures (result == nil) <==> (!(objKey(pod.Namespace, pod.Name) in brm) || brFailed(brm[objKey(pod.Namespace, pod.Name)].BindRequest))
+//@   ensures result != nil ==> result == brm[objKey(pod.Namespace, pod.Name)]
+//@ end
+
+// C13: "... leaves the scheduler's view of ... resource claims ... exactly as it was at that point": the
+// snapshots kept in the undo log (Statement.Evict / Pipeline) are taken with Clone, and the DRA plugin's
+// handlers write the live entries in place, so the copy must share neither the map nor any entry object
+// with the original, while holding the same keys and claim names.
+//@ define rciEntriesOK(rci ResourceClaimInfo) bool = forall k in rci :: rci[k] != nil
+// c is a deep copy of the map m as it was in the pre-state: nil iff m is nil, same key set, every entry a
+// new object with the same claim name
+//@ define rciSameKeys(c ResourceClaimInfo, m ResourceClaimInfo) bool = forall k string :: (k in c) == old(k in m)
+//@ define rciFreshEntries(c ResourceClaimInfo, m ResourceClaimInfo) bool = forall k in c :: c[k] != nil && fresh(c[k]) && c[k].Name == old(m[k].Name)
+
+//@ func (ResourceClaimInfo).Clone
+//@   props C13
+//@   assume rciEntriesOK(rci)
+//@   note assume rciEntriesOK: data invariant of the type - entries are only ever stored as `&ResourceClaimAllocation{...}` (here and in dynamicresources.allocateResourceClaim). It is an `assume`, not a `requires`, because (*pod_info.PodInfo).Clone and its many callers (owned by other contract files) would all have to carry it
+//@   assume forall k in rci :: allocated(rci[k])
+//@   note assume allocated: heap closure (a map cell of the pre-state cannot hold an object that is only allocated later); the engine knows it for a loaded value only relative to the allocation frontier at the load, not relative to the entry state
+//@   loop 1
+//@     invariant newrci != nil && fresh(newrci) && newrci != rci
+//@     invariant forall k string :: (k in newrci) == (k in visited)
+//@     invariant forall k in visited :: k in rci
+//@     invariant forall k in visited :: newrci[k] != nil
+//@     invariant forall k in visited :: fresh(newrci[k])
+//@     invariant forall k in visited :: newrci[k].Name == old(rci[k].Name)
+//@     invariant forall k in visited :: newrci[k].Allocation != nil ==> fresh(newrci[k].Allocation)
+//@   ensures [nilIffNil] (result == nil) == (rci == nil)
+//@   ensures [newMap] result != nil ==> fresh(result)
+//@   ensures [sameKeys] rciSameKeys(result, rci)
+//@   ensures [newEntries] rciFreshEntries(result, rci)
+//@   ensures [newAllocations] forall k in result :: result[k].Allocation != nil ==> fresh(result[k].Allocation)
+//@ end
